@@ -481,8 +481,14 @@ def build_shoc_standard(r: dict) -> Built:
     dims = {k: tuple(v) for k, v in dims.items()}
     coords_as = r.get('coords_as', 'coords')
 
+    # optional key `moved_nodes`: [[j, i, 2*j', 2*i'], …] — node (j, i) sits where the lattice position (j', i') is
+    # (half-lattice units, exact); a node moved across the opposite side of a face makes that face self-intersecting
+    moved = {(m[0], m[1]): (F(m[2], 2), F(m[3], 2)) for m in r.get('moved_nodes', [])}
+
     def nd(j, i):
-        return None if (j, i) in masked_nodes else node(j, i)
+        if (j, i) in masked_nodes:
+            return None
+        return node(*moved[j, i]) if (j, i) in moved else node(j, i)
 
     def mean_or_none(pts):
         return None if any(p is None for p in pts) else _mean(pts)
